@@ -127,9 +127,7 @@ CORPUS += [
 
 CORPUS += [
     # ---------------------------------------------------------------- C06
-    V("C06", "svrp-checker-open-route-unchecked", "rl4co/envs/routing/svrp/env.py", "        closed_actions = torch.cat([actions, torch.zeros_like(actions[:, :1])], 1)
-", "        closed_actions = actions
-", "C06.o"),
+    V("C06", "svrp-checker-open-route-unchecked", "rl4co/envs/routing/svrp/env.py", "closed_actions = torch.cat([actions, torch.zeros_like(actions[:, :1])], 1)", "closed_actions = actions", "C06.o"),
     V("C06", "cvrp-checker-head-unchecked", "rl4co/envs/routing/cvrp/env.py", ').all() and (sorted_pi[:, :-graph_size] == 0).all(), "Invalid tour"', ').all(), "Invalid tour"', 'C06.m'),
     V("C06", "pctsp-checker-count-incl-depot", "rl4co/envs/routing/pctsp/env.py", '== (td["locs"].size(-2) - 1)', '== td["real_prize"].size(-1)', 'C06.n'),
     V("C06", "eq-pctsp-checker-count-from-prize", "rl4co/envs/routing/pctsp/env.py", '== (td["locs"].size(-2) - 1)', '== td["real_prize"].size(-1) - 1', None),
